@@ -169,8 +169,9 @@ theorem constructSymbols_total (lengths : Array Nat) (hle : ∀ x ∈ lengths.to
             · have : r = cntBelow lengths t L := by omega
               subst this
               refine ⟨t, by omega, htlt, hLdef, ?_⟩
-              rw [← ho]
-              simp [hosz]
+              rw [← ho, Array.getElem?_setIfInBounds]
+              simp only [if_true]
+              rw [if_pos hosz]
           · simp only [hLL, if_false, Nat.add_zero] at hr
             obtain ⟨j, j1, j2, j3, j4⟩ := hv L' r h1 h2 hr
             refine ⟨j, by omega, j2, j3, ?_⟩
